@@ -42,6 +42,11 @@ RULE = ('one run = one seeded interleaving of commits, packs, clock steps '
         '(quick and full) and content change (full); one evaluation = one '
         'backup, recover or verify; non-trivial = >= 2 backups; distinct = '
         '(options, op trace)')
+RULE += ('  '
+         'Later addition: backup processes killed while reading or '
+         'copying (after a seeded number of bytes); nothing of a '
+         'killed backup counts, recover and verify go on answering '
+         'from the completed ones. ')
 BUDGET = {'quick': {'runs': 3000, 'wall': 300, 'chunk': 5},
           'thorough': {'runs': 300000, 'wall': 1200, 'chunk': 50}}
 ASSUMPTIONS = [
